@@ -168,3 +168,24 @@ pub proof fn level_routes_stable(a: &AuxiliaryData, b: &AuxiliaryData, comps: Se
         route_ok(b, id_at(lens[j]), chain0 + mw_before(comps, lens, j), obs0 + obs_before(comps, lens, j)) by { known_handler_stable(a, b, id_at(lens[j])); }
     assert forall |j: int| 0 <= j < comps.len() implies denotes(b, lens[j], &#[trigger] comps[j]) by { denotes_stable(a, b, lens[j], &comps[j]); }
 }
+
+// ---- termination of the work-list: the number of nested blueprints still to be processed -----------------------------------
+pub open spec fn bp_weight(bp: &pavex_bp_schema::Blueprint) -> nat decreases bp, 1int, 0int {
+    comps_weight(bp, bp.components@.len() as int)
+}
+/// nested blueprints (with everything below them) among the first `n` components of `bp`
+pub open spec fn comps_weight(bp: &pavex_bp_schema::Blueprint, n: int) -> nat decreases bp, 0int, n {
+    if n <= 0 || n > bp.components@.len() { 0 } else {
+        comps_weight(bp, n - 1) + (match bp.components@[n - 1] { pavex_bp_schema::Component::NestedBlueprint(nb) => 1 + bp_weight(&nb.blueprint), _ => 0nat })
+    }
+}
+pub open spec fn item_weight(q: &QueueItem<'_>) -> nat { 1 + bp_weight(&q.nested_bp.blueprint) }
+/// what the work-list still stands for
+pub open spec fn queue_weight(q: Seq<QueueItem<'_>>) -> nat decreases q.len() {
+    if q.len() == 0 { 0 } else { queue_weight(q.drop_last()) + item_weight(&q.last()) }
+}
+pub proof fn queue_weight_push(q: Seq<QueueItem<'_>>, x: QueueItem<'_>)
+    ensures queue_weight(q.push(x)) == queue_weight(q) + item_weight(&x)
+{
+    assert(q.push(x).drop_last() =~= q);
+}
